@@ -139,6 +139,29 @@ class _Shape(ast.NodeTransformer):
             return ast.copy_location(ast.Assign(targets=[ast.Name(id=name, ctx=ast.Store())], value=val, lineno=node.lineno), node)
         return node
 
+    # K12: an early-exit guard `if T: continue` (in a for body) / `if T: return` (bare, at function level) followed by
+    # the rest R of the block is the same as `if not T: R` - one shape for both spellings (the nested one)
+    @staticmethod
+    def _unguard(seq: list, exit_type, bare_return: bool) -> list:
+        for i, st in enumerate(seq[:-1]):
+            if isinstance(st, ast.If) and not st.orelse and len(st.body) == 1 and isinstance(st.body[0], exit_type) \
+                    and (not bare_return or st.body[0].value is None) and not _has_walrus(st.test):
+                rest = _Shape._unguard(seq[i + 1:], exit_type, bare_return)
+                t = st.test
+                neg = t.operand if isinstance(t, ast.UnaryOp) and isinstance(t.op, ast.Not) else ast.UnaryOp(op=ast.Not(), operand=t)
+                if isinstance(neg, ast.UnaryOp) and isinstance(neg.operand, ast.Compare) and len(neg.operand.ops) == 1 and type(neg.operand.ops[0]) in _DUAL:
+                    o = neg.operand
+                    neg = ast.Compare(left=o.left, ops=[_DUAL[type(o.ops[0])]()], comparators=o.comparators)
+                new_if = ast.copy_location(ast.If(test=neg, body=rest, orelse=[]), st)
+                return seq[:i] + [new_if]
+        return seq
+
+    def visit_For(self, node: ast.For):
+        self.generic_visit(node)
+        if not node.orelse:
+            node.body = self._unguard(node.body, ast.Continue, False)
+        return node
+
     def visit_IfExp(self, node: ast.IfExp):
         self.generic_visit(node)
         t = node.test
